@@ -369,4 +369,18 @@ theorem isingl_decode_spec (b0 b1 b2 b3 : Nat) (h0 : b0 < 256) (h1 : b1 < 256) (
 
 example : ISINGL [0xC2, 0x76, 0xA0, 0x00] 0 = .ok (.fin ⟨-7774208, -16⟩, 4) := by rfl
 
+/-- **VSINGL, decode_spec as the repository codes it** (DESIGN F9: the fraction has weight `2^-23`, following the
+repository's / RP66V1's printed vector `0C 44 00 80 → 153`; a VAX F_floating fraction has weight `2^-24`):
+`(-1)^S · (0.5 + F/2^23) · 2^(E-128)`, `0` when `E = 0 ∧ S = 0`; four bytes consumed. -/
+theorem vsingl_decode_spec (b0 b1 b2 b3 : Nat) (h0 : b0 < 256) (h1 : b1 < 256) (h2 : b2 < 256) (h3 : b3 < 256) :
+    VSINGL [b0, b1, b2, b3] 0 = .ok (vax4 b0 b1 b2 b3, 4) ∧
+    vax4 b0 b1 b2 b3 =
+      (let F := (b0 % 128) * 65536 + b3 * 256 + b2
+       let E := (b1 % 128) * 2 + b0 / 128
+       if E = 0 ∧ b1 < 128 then .fin ⟨0, 0⟩
+       else .fin ⟨if b1 < 128 then ((4194304 + F : Nat) : Int) else -((4194304 + F : Nat) : Int), (E : Int) - 151⟩) :=
+  ⟨by rfl, vax4_spec b0 b1 b2 b3 h0 h1 h2 h3⟩
+
+example : VSINGL [0x0C, 0x44, 0x00, 0x80] 0 = .ok (.fin ⟨5013504, -15⟩, 4) := by rfl   -- 153
+
 end TD.C07
